@@ -286,7 +286,6 @@ impl GameEnv {
             "cb_close": cpc.z[3] == c1 * pubs[2] + rv[2],
             "mb_state": cps.z[4] == c1 * pubs[3] + rv[3],
             "mb_close": cpc.z[4] == c1 * pubs[3] + rv[3],
-            "challenge_is_sha3_of_transcript": c_recomputed_ok,
         });
 
         // on acceptance: what do the returned signatures unblind to?
@@ -870,7 +869,6 @@ pub fn pay_atoms(ft: &Tree, m: &merchant::Config, c1: &Scalar, claimed_nonce_s: 
             "nonce_token": z[1] == *c1 * claimed_nonce_s + sn,
             "cb_state_close": cp_st.z[3] == cp_cl.z[3], "mb_state_close": cp_st.z[4] == cp_cl.z[4],
             "cb_updated": cp_st.z[3] == z[3] - *c1 * ca_s, "mb_updated": cp_st.z[4] == z[4] + *c1 * ca_s,
-            "challenge_is_sha3_of_transcript": indep::challenge_of_transcript(&tr1) == *c1,
         });
 
     atoms
